@@ -30,6 +30,18 @@ def witness(c):
     return isacheck.group_witness(bv.M.describe_assign(a)) if a is not None else None
 
 
+def differs(a, b, care):
+    Mx = bv.M
+    if len(a) != len(b):
+        return care
+    for x, y in zip(a, b):
+        if x != y:
+            d = Mx.AND(Mx.XOR(x, y), care)
+            if d != 0:
+                return d
+    return 0
+
+
 def eqv(n, k, text):
     vec = ("split", ("msg", n), 58)
     return strmodel.eq_var(("field", vec, k), text)
@@ -337,16 +349,224 @@ def part_c(facts, res):
     ip.pattern_models.insert(0, (lambda p, f: "BufWriter" in p or "TcpStream" in p, m_misc))
     ip.pattern_models.insert(0, (lambda p, f: p.endswith("Write>::write_all"), m_write_all))
     ip.pattern_models.insert(0, (lambda p, f: p.endswith("Write>::flush"), m_flush))
+    Mx = bv.M
+
+    # ---- strings built piecewise (String::new + push / push_str in a loop over the message): a builder is the
+    # term ("build", base, segments); a segment is ("alts", ((guard, bytes), ...)) or ("term", t)
+    def utf8_alts(c):
+        """UTF-8 encoding of a 32-bit code point as guarded byte sequences"""
+        c = tuple(c) + (0,) * (32 - len(c))
+        lt = lambda k: bv.ult(c, bv.const(k, 32))   # noqa: E731
+        b = lambda bits: tuple(bits)                 # noqa: E731
+        one = (lt(0x80), (b(c[0:7] + (0,)),))
+        two = (Mx.AND(Mx.NOT(lt(0x80)), lt(0x800)), (b(c[6:11] + (0, 1, 1)), b(c[0:6] + (0, 1))))
+        three = (Mx.AND(Mx.NOT(lt(0x800)), lt(0x10000)), (b(c[12:16] + (0, 1, 1, 1)), b(c[6:12] + (0, 1)), b(c[0:6] + (0, 1))))
+        four = (Mx.NOT(lt(0x10000)), (b(c[18:21] + (0, 1, 1, 1, 1)), b(c[12:18] + (0, 1)), b(c[6:12] + (0, 1)), b(c[0:6] + (0, 1))))
+        return (one, two, three, four)
+
+    def const_seg(text):
+        return ("alts", ((1, tuple(bv.const(x, 8) for x in text.encode("utf-8"))),))
+
+    def builder_of(ip_, st, ref):
+        v = strmodel.val_of(ip_, st, ref)
+        tm = v.data if isinstance(v, Opaque) and v.tag == "str" else None
+        if isinstance(tm, tuple) and tm and tm[0] == "build":
+            return tm
+        if tm is not None:
+            return ("build", tm, ())
+        return None
+
+    def append(ip_, st, ref, seg):
+        bt = builder_of(ip_, st, ref)
+        if bt is None or not isinstance(ref, Ref):
+            st.tag("unknown-callee")
+            return UNIT
+        ip_.write_loc(st, ref.root, ref.path, strmodel.S(("build", bt[1], bt[2] + (seg,))))
+        return UNIT
+
+    def m_string_new(ip_, st, fr, t, args):
+        return strmodel.S(("build", "", ()))
+
+    def m_push_str(ip_, st, fr, t, args):
+        tm = strmodel.term_of(ip_, st, args[1])
+        return append(ip_, st, args[0], const_seg(tm) if isinstance(tm, str) else ("term", tm))
+
+    def m_push(ip_, st, fr, t, args):
+        if not isinstance(args[1], Int):
+            st.tag("unknown-callee")
+            return UNIT
+        return append(ip_, st, args[0], ("alts", utf8_alts(args[1].bits)))
+
+    def m_string_len(ip_, st, fr, t, args):
+        tm = strmodel.term_of(ip_, st, args[0])
+        return Int(strmodel.len_var(("len", tm)))
+
+    def m_elems(kind):
+        def f(ip_, st, fr, t, args):
+            return Opaque("eliter", (kind, strmodel.term_of(ip_, st, args[0])))
+        return f
+
+    def m_el_iter(ip_, st, fr, t, args):
+        return args[0] if isinstance(args[0], Opaque) and args[0].tag == "eliter" else None
+
+    def m_el_next(ip_, st, fr, t, args):
+        it = strmodel.val_of(ip_, st, args[0])
+        if not (isinstance(it, Opaque) and it.tag == "eliter"):
+            return None
+        kind, src = it.data
+        k = st.count("el")
+        if kind == "bytes":
+            e = bv.data_bv("el%d" % k, 8)
+            valid = 1
+        else:
+            e = bv.data_bv("el%d" % k, 21) + (0,) * 11
+            valid = Mx.AND(bv.ult(e, bv.const(0x110000, 32)), Mx.NOT(Mx.AND(bv.ule(bv.const(0xD800, 32), e), bv.ule(e, bv.const(0xDFFF, 32)))))
+        return [(valid, Enum(models.SOME, [Int(e)]), lambda s, e=e, kind=kind, src=src: s.add_eff(("el", kind, src, e))),
+                (None, Enum(models.NONE, []), lambda s, kind=kind, src=src: s.add_eff(("el-done", kind, src)))]
+    ip.models["std::string::String::new"] = m_string_new
+    ip.models["std::string::String::with_capacity"] = m_string_new
+    ip.models["std::string::String::push_str"] = m_push_str
+    ip.models["std::string::String::push"] = m_push
+    ip.models["std::string::String::len"] = m_string_len
+    ip.models["core::str::<impl str>::bytes"] = m_elems("bytes")
+    ip.models["core::str::<impl str>::chars"] = m_elems("chars")
+    ip.models["<I as std::iter::IntoIterator>::into_iter"] = m_el_iter
+    ip.models["<std::str::Bytes<'_> as std::iter::Iterator>::next"] = m_el_next
+    ip.models["<std::str::Chars<'a> as std::iter::Iterator>::next"] = m_el_next
 
     def at_header(ip_, st, fr, n):
+        for k_ in [k_ for k_ in st.ctr if isinstance(k_, tuple) and k_[0] == "iv"]:
+            st.ctr[k_] = 0      # inner-loop visit counts are per message
         return "stop" if n >= 2 else "continue"
     ip.block_hooks[(key, header)] = at_header
-    envt = body["locals"][1]["ty"]
-    env = Opaque("closure-env")
-    tmp = ("h", "env")
+
+    def mk_inner(h):
+        def hook(ip_, st, fr, n_):
+            n = st.ctr.get(("iv", h), 0)
+            st.ctr[("iv", h)] = n + 1
+            roots = [r for r, v in st.mem.items() if r[0] == "f" and r[1] == fr.fid and isinstance(v, Opaque) and v.tag == "str"
+                     and isinstance(v.data, tuple) and v.data and v.data[0] == "build"]
+            if n == 0:
+                for r in sorted(roots, key=str):
+                    st.add_eff(("inner-enter", h, r[2], st.mem[r].data))
+                    st.mem[r] = strmodel.S(("build", ("prefix", h, r[2]), ()))
+                return "continue"
+            for r in sorted(roots, key=str):
+                st.add_eff(("inner-back", h, r[2], st.mem[r].data))
+            st.add_eff(("inner-stop", h))
+            return "stop"
+        return hook
+    inner = [h for h in loops if h != header and h in loops[header]]
+    for h in inner:
+        ip.block_hooks[(key, h)] = mk_inner(h)
     outs = ip.run_all(key, [Agg([Opaque("writer"), Opaque("rx")])], {})
     if ip.unknown_callees:
         res.errors.append("unmodelled callees in the send worker: %r" % ip.unknown_callees)
+
+    def closed(tm):
+        """terms over the closed vocabulary msg / const / replace / concat / bytes (decidable by comparison)"""
+        if isinstance(tm, str):
+            return True
+        if not isinstance(tm, tuple) or not tm:
+            return False
+        if tm[0] == "msg":
+            return True
+        if tm[0] in ("replace", "concat", "bytes"):
+            return all(closed(x) or isinstance(x, int) for x in tm[1:])
+        return False
+
+    def flat(segs, cond):
+        """all (condition, byte list) combinations of a segment tuple; None when a segment is not bytes"""
+        acc = [(cond, [])]
+        for sg in segs:
+            if sg[0] != "alts":
+                return None
+            nacc = []
+            for c0, bs in acc:
+                for g_, bytes_ in sg[1]:
+                    c1 = Mx.AND(c0, g_)
+                    if c1 != 0:
+                        nacc.append((c1, bs + list(bytes_)))
+            acc = nacc
+        return acc
+
+    def expected_for(kind, e):
+        is_bs = bv.eq(e, bv.const(0x5C, len(e)))
+        is_nl = bv.eq(e, bv.const(0x0A, len(e)))
+        other = Mx.AND(Mx.NOT(is_bs), Mx.NOT(is_nl))
+        alts = [(is_bs, [bv.const(0x5C, 8), bv.const(0x5C, 8)]), (is_nl, [bv.const(0x5C, 8), bv.const(0x6E, 8)])]
+        if kind == "bytes":
+            alts.append((other, [tuple(e)]))
+        else:
+            for g_, bs in utf8_alts(e):
+                alts.append((Mx.AND(other, g_), list(bs)))
+        return alts
+    # per-element step of every piecewise-built text (inner loops)
+    loop_ok = {}       # (h, local) -> {"base":..., "src":..., "step": bool, "covered": bdd, "kind":...}
+    for o in outs:
+        effs = list(o.state.eff)
+        kinds = [e[0] for e in effs]
+        if "inner-enter" not in kinds:
+            continue
+        i0 = max(i for i, e in enumerate(effs) if e[0] == "inner-enter")
+        recvs = [e[1] for e in effs[:i0] if e[0] == "recv"]
+        nmsg = recvs[-1] if recvs else None
+        lastrecv = max([i for i, e in enumerate(effs[:i0]) if e[0] == "recv"] or [0])
+        ent = [(e[0], e[1], (e[2], nmsg), e[3]) for e in effs[lastrecv:] if e[0] == "inner-enter"]
+        after = effs[i0 + 1:]
+        els = [e for e in after if e[0] == "el"]
+        for e in ent:
+            rec = loop_ok.setdefault((e[1], e[2]), {"base_ok": True, "src": set(), "step_ok": True, "covered": 0, "kind": None, "why": None, "truncated": False})
+            if e[3] != ("build", "", ()):
+                rec["base_ok"] = False
+        if "inner-stop" in kinds:
+            backs = [(e[0], e[1], (e[2], nmsg), e[3]) for e in after if e[0] == "inner-back"]
+            if len(els) != 1:
+                for e in ent:
+                    loop_ok[(e[1], e[2])]["step_ok"] = False
+                    loop_ok[(e[1], e[2])]["why"] = "an iteration consumes %d elements" % len(els)
+                continue
+            kind, src, ebits = els[0][1], els[0][2], els[0][3]
+            for bk in backs:
+                rec = loop_ok.get((bk[1], bk[2]))
+                if rec is None:
+                    continue
+                rec["src"].add((kind, src))
+                rec["kind"] = kind
+                rec["ebits"] = ebits
+                tm = bk[3]
+                if not (isinstance(tm, tuple) and tm[0] == "build" and tm[1] == ("prefix", bk[1], bk[2][0])):
+                    rec["step_ok"] = False
+                    rec["why"] = "the text is rebuilt, not appended to"
+                    continue
+                got = flat(tm[2], o.state.pc)
+                if got is None:
+                    rec["step_ok"] = False
+                    rec["why"] = "an appended piece is not a byte sequence the model follows"
+                    continue
+                for c0, bs in got:
+                    for g_, ex in expected_for(kind, ebits):
+                        c1 = Mx.AND(c0, g_)
+                        if c1 == 0:
+                            continue
+                        bad = c1 if len(bs) != len(ex) else 0
+                        if not bad:
+                            for x, y in zip(bs, ex):
+                                d = differs(tuple(x), tuple(y), c1)
+                                if d != 0:
+                                    bad = d
+                                    break
+                        res.ob(bad == 0)
+                        if bad != 0:
+                            rec["step_ok"] = False
+                            w = witness(bad) or {}
+                            rec["why"] = "for the element %s the bytes appended are not the escape of that element" % (w.get("el0") or w)
+                rec["covered"] = Mx.OR(rec["covered"], o.state.pc)
+        else:
+            # a trace that leaves the inner loop: only because the iterator is exhausted
+            if els:
+                for e in ent:
+                    loop_ok[(e[1], e[2])]["truncated"] = True
     nseen = 0
     for o in outs:
         effs = list(o.state.eff)
@@ -358,17 +578,62 @@ def part_c(facts, res):
             seg = effs[idx + 1: idx + 1 + nxt[0]] if nxt else effs[idx + 1:]
             if not nxt and o.kind not in ("stop",):
                 continue
+            if any(x[0] == "inner-stop" for x in seg):
+                continue     # cut inside the escape loop: accounted for above
+            io = [x for x in seg if x[0] in ("write_all", "flush")]
             expect_term = ("bytes", ("concat", ("replace", ("replace", ("msg", n), 92, "\\\\"), 10, "\\n"), "\n"))
-            okk = seg == [("write_all", expect_term), ("flush",)]
+            okk = io == [("write_all", expect_term), ("flush",)]
+            why = None
+            if not okk and len(io) == 2 and io[0][0] == "write_all" and io[1] == ("flush",):
+                tm = io[0][1]
+                # piecewise-built text: prefix of a verified escape loop over this message, then the terminator
+                if isinstance(tm, tuple) and tm[0] == "bytes" and isinstance(tm[1], tuple) and tm[1][0] == "build" and isinstance(tm[1][1], tuple) and tm[1][1][0] == "prefix":
+                    hkey = (tm[1][1][1], (tm[1][1][2], n))
+                    rec = loop_ok.get(hkey)
+                    tail = flat(tm[1][2], o.state.pc)
+                    if rec is None or tail is None:
+                        why = "undecided"
+                    else:
+                        kind = rec["kind"]
+                        if kind == "bytes":
+                            full_cover = 1
+                        else:
+                            e0 = rec["ebits"]
+                            full_cover = Mx.AND(bv.ult(e0, bv.const(0x110000, 32)), Mx.NOT(Mx.AND(bv.ule(bv.const(0xD800, 32), e0), bv.ule(e0, bv.const(0xDFFF, 32))))) if e0 else 0
+                        aux = set(r for r in Mx.support(rec["covered"]) if not (Mx.names.get(r, "").startswith("el")))
+                        cov = Mx.exists(rec["covered"], aux) if rec["covered"] not in (0, 1) else rec["covered"]
+                        problems = []
+                        if not rec["base_ok"]:
+                            problems.append("the text does not start empty")
+                        if rec["src"] != {(kind, ("msg", n))}:
+                            problems.append("the loop does not run over the bytes / characters of the message (%r)" % sorted(rec["src"], key=str))
+                        if not rec["step_ok"]:
+                            problems.append(rec["why"] or "an element is not escaped correctly")
+                        if rec["truncated"]:
+                            problems.append("the loop can be left before the message is exhausted")
+                        if Mx.AND(full_cover, Mx.NOT(cov)) != 0:
+                            problems.append("some element values do not reach the end of the loop body")
+                        if not (len(tail) == 1 and [bv.to_int(x) for x in tail[0][1]] == [0x0A]):
+                            problems.append("the terminator appended after the loop is not a single newline")
+                        okk = not problems
+                        why = "; ".join(problems) if problems else None
+                elif not closed(tm):
+                    why = "undecided"
             res.ob(okk)
             nseen += 1
             if not okk:
-                res.finding("framing|send", "the text written for a message is %r; expected one write of escape-backslash-then-newline + terminator, then one flush" % (seg[:3],))
+                if why == "undecided":
+                    res.errors.append("send worker: the text written is built in a way this rule does not follow (%r): not decidable" % (str(io[0][1])[:120],))
+                elif why:
+                    res.finding("framing|send", "the text written for a message is not escape(message) + newline: %s" % why)
+                else:
+                    res.finding("framing|send", "the text written for a message is %r; expected one write of escape-backslash-then-newline + terminator, then one flush" % (io[:3],))
             res.evaluations += 1
     res.ob(nseen >= 2)
     if nseen < 2:
         res.errors.append("send worker: fewer than two message transmissions analysed")
     res.inventory["send_worker_messages_followed"] = nseen
+    res.inventory["send_worker_escape_loops"] = {"%s/%s" % (k[0], k[1]): {"base_ok": v["base_ok"], "step_ok": v["step_ok"], "kind": v["kind"]} for k, v in loop_ok.items()}
     # ---- structural facts of the remaining plumbing (library calls on one def-use chain)
 
     def calls_of(suffix):
